@@ -28,6 +28,11 @@ def TokKind.all : List TokKind :=
    .right_cbracket, .semicolon, .comma, .hash_comment, .bracket_comment, .multiline, .string,
    .identifier, .tag, .number]
 
+/-- the regular expression each rule of the model implements (Python `re` syntax, `re.MULTILINE`), in rule
+    order; compared with the patterns read from `Parser.lrules` on every run (`C01`/`C02`) -/
+def TokKind.patterns : List String :=
+  ["\\[", "\\]", "\\(", "\\)", "{", "}", ";", ",", "#.*$", "/\\*[\\s\\S]*?\\*/", "text:[\\s\\S]*?[\\r\\n]+\\.\\r?$", "\"([^\"\\\\]|\\\\.)*\"", "[a-zA-Z_][\\w]*", ":[a-zA-Z_][\\w]*", "[0-9]+[KMGkmg]?"]
+
 structure Tok where
   kind : TokKind
   pos  : Nat
